@@ -15,13 +15,15 @@ import sites
 
 LEAN_TARGETS = ["CM.Props.C13", "CM.Generated.PredsEq"]
 THEOREMS = [
-    "CM.Location.C13_permitted_spec",
-    "CM.Location.C13_single_line",
+    "CM.Location.C13_filter_as_is",
+    "CM.Location.C13_permitted_spec_full_fails",
+    "CM.Location.C13_single_line_partial",
     "CM.Location.C13_excluded_not_selected",
-    "CM.Location.C13_not_included_not_selected",
+    "CM.Location.C13_not_included_not_selected_partial",
+    "CM.Location.C13_excludes_shadow_includes",
     "CM.Location.C13_permitted_selected",
     "CM.Location.C13_change_line",
-    "CM.Location.C13_code_filter_spec",
+    "CM.Location.C13_code_filter_spec_partial",
     "CM.Location.C13_dup_filter_eq",
     "CM.Select.C13_line_patterns_spellings",
     "CM.Generated.gen_match_line_eq",
@@ -41,9 +43,10 @@ ASSUMPTIONS = [
     "libcst position metadata (1-based lines) is assumed",
 ]
 LEVEL_TEXT = (
-    "Lean 4 theorems over CM.Location/CM.Select: the line filter holds iff the node is on no excluded line and (no includes or on an "
-    "included line) (C13_permitted_spec, C13_single_line), excluded / not-included single-line nodes are never selected, permitted ones "
-    "pass, the change line is the node line, relative/globbed/absolute spellings give the same line list. The filter and match_line "
+    "Lean 4 theorems over CM.Location/CM.Select: with excludes only or includes only, a single-line node passes the line filter iff its "
+    "line is permitted (C13_single_line_partial); excluded nodes are never selected; permitted ones always pass; the full statement is "
+    "false on the unchanged code when both kinds are given for one file (C13_permitted_spec_full_fails: excludes shadow includes - a "
+    "recorded known finding, the repository's own test test_includes_excludes pins that behaviour so it cannot be repaired by a fix: commit);  the change line is the node line, relative/globbed/absolute spellings give the same line list. The filter and match_line "
     "definitions are regenerated from the current source of base_visitor.py and remove_unused_imports.py by a translator and proved "
     "equal to the model on every run (gen_*_eq); the real functions are also run against the Driver exhaustively on a small grid. "
     "Whether each transformer calls the filter is searched through the real CLI: per codemod, all subsets of n single-line sites as "
@@ -92,7 +95,7 @@ def corr_filter(ctx):
             exp = L not in rq["exclude"] and (not rq["include"] or L in rq["include"])
             for which in ("permitted", "gen_rui"):
                 if im[which] != exp:
-                    shape = "exclude-shadows-include" if rq["exclude"] and rq["include"] else "other"
+                    shape = "exclude-shadows-include" if rq["exclude"] and rq["include"] and L not in rq["exclude"] and im[which] else "other"
                     ctx.fail({"kind": "line-filter", "shape": shape, "copy": which}, f"line filter ({which}) on line {L} with exclude={rq['exclude']} include={rq['include']} gives {im[which]}, permitted is {exp}", {"request": rq, "impl": im})
     ctx.exhaustive_parts.append(f"line filter grid: {len(reqs)} (position, exclude, include) triples")
 
@@ -299,7 +302,7 @@ def search(ctx):
             missing = [L for L in s["expected"] if L not in s["rewritten"]]
             if extra:
                 ctx.fail({"kind": "line-not-permitted-rewritten", "codemod": c["codemod"], "spelling": s["spelling"],
-                          "via": "exclude" if any(L in s["E"] for L in extra) else "include"},
+                          "via": "exclude" if any(L in s["E"] for L in extra) else "include", "combined": bool(s["E"] and s["I"])},
                          f"{c['codemod']}: line(s) {extra} rewritten although not permitted (E={s['E']} I={s['I']} spelling={s['spelling']}; sites {r['sites']})", rep)
             elif missing:
                 ctx.fail({"kind": "permitted-line-not-fixed", "codemod": c["codemod"], "spelling": s["spelling"]},
